@@ -1,9 +1,56 @@
+"""contracts for src/messages/mod.rs: dispatch (C09) and unarmor (C03)"""
 from common import PROLOGUE
+import c_msgs
+
+
+def dispatch_spec():
+    tt = c_msgs.type_table()
+    out = []
+    # C09: the variant is determined by the first six bits; every other value is an error
+    arms = []
+    for (nums, variant, mod, struct, prefix, tags) in tt:
+        cond = ' || '.join('t == %d' % n for n in nums)
+        arms.append('    &&& (%s ==> (r is Ok ==> r->Ok_0 is %s))' % (cond, variant))
+    supported = ' || '.join('t == %d' % n for (nums, *_r) in tt for n in nums)
+    out.append('''
+/// C09 (table from the property statement): kind of message per 6-bit type; unsupported types are errors
+pub open spec fn dispatch_C09(o: Seq<u8>, r: Result<AisMessage>) -> bool {
+    let t = fld(o, 0, 6);
+    &&& (o.len() == 0 ==> r is Err)
+%s
+    &&& (!(%s) ==> r is Err)
+    &&& (r is Ok ==> own_type(r->Ok_0) == t)
+}
+/// the message's own type field
+pub open spec fn own_type(m: AisMessage) -> int {
+    match m {
+%s
+    }
+}
+''' % ('\n'.join(arms), supported, '\n'.join('        AisMessage::%s(x) => x.message_type as int,' % v for (_n, v, *_r) in tt)))
+    # composition: the result satisfies the per-type postconditions of the selected parser
+    for (nums, variant, mod, struct, prefix, tags) in tt:
+        cond = ' || '.join('fld(o, 0, 6) == %d' % n for n in nums)
+        for tag in tags:
+            out.append('''pub open spec fn dispatch_%s_%s(o: Seq<u8>, r: Result<AisMessage>) -> bool {
+    (%s) ==> crate::messages::%s::%s_%s(o, match r { Ok(AisMessage::%s(m)) => Ok(m), _ => Err(()) })
+}
+''' % (prefix, tag, cond, mod, prefix, tag, variant))
+    return '\n'.join(out)
+
+
+def dispatch_ensures():
+    ens = ['dispatch_C09(unarmored@, r)']
+    for (nums, variant, mod, struct, prefix, tags) in c_msgs.type_table():
+        for tag in tags:
+            ens.append('dispatch_%s_%s(unarmored@, r)' % (prefix, tag))
+    return ens
 
 
 def apply(fc):
     fc.add_prologue(PROLOGUE)
-    fc.contract('parse', external_body=True)
+    fc.add_epilogue(dispatch_spec())
+    fc.contract('parse', requires=['small(unarmored@.len() as int)'], ensures=dispatch_ensures())
     fc.contract('parse', within='trait AisMessageType', requires=['small(data@.len() as int)'])
     fc.contract('push_unwrap', ensures=['final(list)@ == old(list)@.push(item)'])
     fc.contract('unarmor', external_body=True)
